@@ -102,6 +102,7 @@ struct FieldVT {
   unsigned kind;         // Kind
   unsigned words;        // 64-bit words per value
   bool podValue;         // ValTy is memory copyable (PODResizeableArray path) or not (gstl::Vector path)
+  bool asyncOK;          // sync<..., async = true> is instantiated for this field
   // raw access (initialisation / observation)
   void (*store)(Graph& g, uint32_t lid, const uint64_t* w);
   void (*load)(Graph& g, uint32_t lid, uint64_t* w);
